@@ -453,7 +453,7 @@ pub fn run_sim(cfg: &Cfg, seed: u64, hs: [&[Op]; 2], st: &mut Stats) -> [Outcome
     let nseg = [segments(hs[0]).len(), segments(hs[1]).len()];
     let mut steps = 0u64;
     let mut err: Option<String> = None;
-    let mut run_until = |sim: &mut turmoil::Sim, f: &dyn Fn() -> bool, steps: &mut u64| {
+    let run_until = |sim: &mut turmoil::Sim, f: &dyn Fn() -> bool, steps: &mut u64| {
         let mut guard = 0;
         while !f() {
             guard += 1;
@@ -658,7 +658,7 @@ pub fn finish_spec(ctx: &Ctx) -> Finish<'static> {
             "histories inside known-defect zones (zones.rs) are not generated; each zone has a directed scenario whose complaint is a known finding".into(),
             "symlinks, hard links, permissions, timestamps are never generated; dangling subtrees are not asserted".into(),
         ],
-        min_distinct: ctx.pick(1500, 20_000),
+        min_distinct: ctx.pick(4_000, 30_000),
         required_counters: vec![
             "crash_points",
             "crash_points_nontrivial",
@@ -699,7 +699,7 @@ pub fn run(ctx: &Ctx) -> ! {
         scenario_directed(&c2, i)
     });
     let budget = ctx.pick(45.0, 420.0);
-    let n_sim = ctx.pick(150u64, 3000);
+    let n_sim = ctx.pick(400u64, 3000);
     let c2 = ctx.clone();
     rep.merge(vcore::run_parallel(
         ctx,
@@ -727,7 +727,7 @@ pub fn run(ctx: &Ctx) -> ! {
     rep.merge(r);
     rep.extra
         .insert("exhaustive_small_scope".into(), json!({"length": len, "alphabet": alphabet().len(), "histories": n_exh, "completed": exh_done}));
-    let n_direct = ctx.pick(14_000u64, 400_000);
+    let n_direct = ctx.pick(45_000u64, 400_000);
     let c2 = ctx.clone();
     rep.merge(vcore::run_parallel(
         ctx,
